@@ -201,6 +201,9 @@ func main() {
 		ev    evidence
 	}
 	searched := map[string]searchRes{} // one search per offending function, shared by its fields
+	var hangDone, hangFound bool
+	var hangText string
+	var hangTried []string
 	for _, d := range append(append([]diag{}, rep.Diagnostics...), rep.NotSingle...) {
 		key := d.Check + ":" + d.Func + ":" + fieldLabel(d.Field)
 		if seen[key] || (d.Check == "single_section" && len(byFunc[d.Func]) > 0) {
@@ -236,6 +239,20 @@ func main() {
 				res.Count("violation_reproduced")
 			} else {
 				detail += "; the search (offending method against each conflicting method of the store, race build and plain build, " + budget.String() + ") found no failing execution: no-failing-input-found"
+				res.Count("violation_not_reproduced")
+			}
+		} else if d.Check == "lock_order" {
+			if !hangDone {
+				hangFound, hangText, hangTried = searchDeadlock(rng.Fork())
+				hangDone = true
+			}
+			rc.Tried = hangTried
+			if hangFound {
+				rc.Kind, rc.Mode, rc.Evidence = "hang", "denysession", hangText
+				detail += "; reproduced on the real access API: " + firstHang(hangText)
+				res.Count("violation_reproduced")
+			} else {
+				detail += "; the search (concurrent POST /session and POST /bids/deny|allow against the real access API, watchdog) found no hang: no-failing-input-found"
 				res.Count("violation_not_reproduced")
 			}
 		} else {
@@ -371,6 +388,20 @@ func replay(res *lib.Result, rep *report, rc replayCase) {
 		} else {
 			res.Notes = append(res.Notes, "replay: no race report / fatal error this time")
 		}
+	case "hang":
+		res.Evaluations = 1
+		for try := int64(1); try <= 2; try++ {
+			mode := rc.Mode
+			if mode == "" {
+				mode = "denysession"
+			}
+			out := runRelayChildMode(4, try, mode)
+			if hung, txt := hangEvidence(out); hung {
+				res.Violate(lib.Violation{Clause: "lock-order", Case: -1, Key: "replay", Detail: "replayed: " + firstHang(txt), Replay: rc})
+				return
+			}
+		}
+		res.Notes = append(res.Notes, "replay: the relay kept answering this time")
 	case "relay":
 		res.Evaluations = 1
 		for try := int64(1); try <= 3; try++ {
